@@ -20,6 +20,7 @@ func init() {
 			"(R3) every message a Stream method encodes or enqueues carries that stream's own identifier; " +
 			"(R4) Stream.Write sends data[:w], advances by w and subtracts w from sendWindow — the same value w — under sendWindowLock; the data-block limit fits the 16-bit length field (maximumStreamDataBlockSize ≤ 65535) and the encoder writes len(data) in 16 bits; " +
 			"(R5) the reader appends received data to the addressed stream's buffer with exactly the announced length, under that stream's lock, and signals readiness exactly when the buffer went from empty to non-empty; the close-write message is enqueued only after the write-deadline semaphore was taken (all writers drained). " +
+			"(R6, initial window) a stream's send window starts as the receive window the peer advertised: Multiplexer.read stores the value decoded from the open/accept message (or hands exactly it to newStream, which initialises the field from that parameter and nothing else); other constructor callers pass zero; " +
 			"Not decided: ordering/no-loss under schedules (needs execution), TCP-like semantics of the carrier.",
 		Assumptions: []string{"ring.Buffer is a FIFO (C26)", "the carrier delivers bytes in order"},
 		Run:         runC23,
@@ -27,6 +28,7 @@ func init() {
 }
 
 func runC23(c *eng.Ctx) {
+	c23InitialWindow(c)
 	unpublished := func(fa *ssa.FieldAddr) (bool, string) {
 		base := eng.Unwrap(fa.X)
 		if call, ok := base.(*ssa.Call); ok && eng.CalleeName(call) == "multiplexing.newStream" {
@@ -220,7 +222,15 @@ func runC23(c *eng.Ctx) {
 			}
 		}
 	}
-	if cw := c.MustFunc("R5", muxPkg, "Stream.closeWrite"); cw != nil {
+	closeWriteAfterWriters(c, "R5")
+	c.Floor("R5", 3)
+}
+
+// closeWriteAfterWriters: shared by C23.R5 and C24.R6 — a data message sent
+// after the stream's close-write message is both a reordering (C23) and a
+// protocol violation the peer tears the connection down for (C24).
+func closeWriteAfterWriters(c *eng.Ctx, rule string) {
+	if cw := c.MustFunc(rule, muxPkg, "Stream.closeWrite"); cw != nil {
 		fldD, _ := c.P.Field(muxPkg, "Stream", "writeDeadline")
 		fldE, _ := c.P.Field(muxPkg, "Multiplexer", "enqueueCloseWrite")
 		for _, f := range eng.WithClosures(cw) {
@@ -235,9 +245,8 @@ func runC23(c *eng.Ctx) {
 			}
 			if sendI != nil {
 				ok := recvI != nil && (recvI.Block().Dominates(sendI.Block()) && (recvI.Block() != sendI.Block() || eng.InstrIndex(recvI) < eng.InstrIndex(sendI)))
-				c.Check("R5", "close-write-after-writers-drained", eng.InstrPos(sendI), ok, "the close-write message is enqueued only after the write-deadline semaphore was taken (no writer is mid-write)")
+				c.Check(rule, "close-write-after-writers-drained", eng.InstrPos(sendI), ok, "the close-write message is enqueued only after the write-deadline semaphore was taken (no writer is mid-write)")
 			}
 		}
 	}
-	c.Floor("R5", 3)
 }
